@@ -4,8 +4,8 @@ time, run the property's check, record whether and how it is caught, and restore
 Input: /tmp/mut-<ID>-out/m<k>.diff (+ m<k>_demo_test.go, m<k>.json). Output: /verif/seeded/<ID>-m<k>/."""
 import json, os, re, shutil, subprocess, sys, time
 
-VERIF = "/verif"
-REPO = "/repo"
+VERIF = os.environ.get("SEED_VERIF", "/verif")      # a lane copy of /verif (see seedlanes.sh) or /verif itself
+REPO = os.environ.get("VERIF_REPO", "/repo")         # the tree the seed is applied to: /repo, or a scratch worktree for a lane
 
 def sh(cmd, **kw):
     p = subprocess.run(cmd, shell=True, stdout=subprocess.PIPE, stderr=subprocess.STDOUT, text=True, **kw)
